@@ -6,6 +6,10 @@
     same terminal (under the current query status [t_fc] and with queries enabled
     [t_fe]).
 
+    Armed calls ([GetCellSizeAbort] ...: a fault is armed inside [query_terminal]) are
+    observed as [raised] when the exception reached the caller, else as the plain value;
+    the twin's fresh values are those of the plain getter.
+
     [check] returns 0 = agrees with model and specification; 1 = differs from the model
     (or the model's [fresh_*] differ from the twin's values); 2 = the observed behaviour
     contradicts the specification (only judged when the history satisfies the
@@ -32,7 +36,8 @@ Definition ratio_close (obs mdl : list Z) : bool :=
   | _, _ => false
   end.
 
-Definition is_ratio_op (o : op) : bool := match o with GetCellRatio => true | _ => false end.
+Definition is_ratio_op (o : op) : bool :=
+  match o with GetCellRatio | GetCellRatioAbort => true | _ => false end.
 
 (** [strict]: counters must be equal (model); otherwise they must not exceed the
     reference (specification: a body runs AT MOST once per entry the history allows) *)
@@ -44,7 +49,8 @@ Fixpoint zl_leb (a b : list Z) : bool :=
   end.
 
 Definition row_eqb (strict : bool) (o : op) (obs mdl : list Z * list Z) : bool :=
-  (if is_ratio_op o then ratio_close (fst obs) (fst mdl) else zl_eqb (fst obs) (fst mdl))
+  (if is_ratio_op o && negb (zl_eqb (fst obs) raised) && negb (zl_eqb (fst mdl) raised)
+   then ratio_close (fst obs) (fst mdl) else zl_eqb (fst obs) (fst mdl))
   && (if strict then zl_eqb (snd obs) (snd mdl) else zl_leb (snd obs) (snd mdl)).
 
 Fixpoint rows_eqb (strict : bool) (ops : list op) (obs mdl : list (list Z * list Z)) : bool :=
@@ -67,7 +73,7 @@ Record tcase := {
 Definition fresh_view (e : tenv) (h : hstate) (o : op) (q : bool) : list Z :=
   let t := h_tm h in
   let sw := h_swap h in
-  match o with
+  match plain o with
   | GetCellSize => view_cs (fresh_cs e t sw q)
   | GetCellRatio => view_ratio (fresh_dyn_ratio e t sw q)
   | GetColors k => view_col (fresh_col e t sw q k)
@@ -93,7 +99,9 @@ Fixpoint fresh_ok (e : tenv) (h : hstate) (ops : list op) (fc fe : list (list Z)
 (** the property judged on observations alone (no model value involved): a getter's
     answer is the twin's fresh answer under the current status or under "enabled", and
     under "enabled" whenever queries are enabled now; the derived flag is derived from
-    such an answer *)
+    such an answer.  An armed call that returns normally is judged like the plain call;
+    what an aborted computation must NOT do — leave something behind — is judged at the
+    calls that follow it. *)
 Definition derive (o : op) (v : list Z) : list Z :=
   match o with
   | IsOnKitty => [if Z.eqb (hd 0 v) KITTY then 1 else 0]
@@ -103,7 +111,7 @@ Definition derive (o : op) (v : list Z) : list Z :=
 Definition same_val (o : op) (obs fr : list Z) : bool := zl_eqb obs (derive o fr).
 
 Definition judged (h : hstate) (o : op) : bool :=
-  match o with
+  match plain o with
   | GetCellSize | GetColors _ | GetNameVersion | IsOnKitty | GetTsc => true
   | GetCellRatio => match h_ratio h with Dynamic => true | Fixed _ => false end
   | _ => false
@@ -115,6 +123,7 @@ Fixpoint obs_ok (e : tenv) (h : hstate) (ops : list op)
   | [], [], [], [] => true
   | o :: r, x :: xs, c :: fc', en :: fe' =>
     (negb (judged h o)
+     || (is_abort o && zl_eqb (fst x) raised)   (* the caller got the exception: no value to judge *)
      || (if h_qen h then same_val o (fst x) en
          else same_val o (fst x) c || same_val o (fst x) en))
     && obs_ok e (fst (hstep e h o)) r xs fc' fe'
@@ -156,7 +165,7 @@ Definition round_robin (lo n k : nat) : list nat :=
   concat (repeat (map (fun i => lo + i) (seq 0 n)) k).
 
 Definition race_totals (n : nat) : list nat :=
-  let bv := fun i _ => Z.of_nat i in
+  let bv := fun i _ => Some (Z.of_nat i) in
   let s1 := run_sched (mstep bv) (minit (race_prog n)) (round_robin 1 n (6 * n)) in
   let s2 := run_sched (mstep bv) s1 ([0; 0; 0] ++ round_robin (n + 1) n (6 * n)) in
   [m_total s1; m_total s2].
